@@ -81,6 +81,9 @@ def query_points(truth, polys) -> list[tuple[float, float]]:
             nx_, ny_ = -dy / length / 16, dx / length / 16
             add(mx + nx_, my + ny_)
             add(mx - nx_, my - ny_)
+            # far inside any sensible tolerance, still on one side of the edge
+            add(mx + nx_ * 2.0 ** -27, my + ny_ * 2.0 ** -27)
+            add(mx - nx_ * 2.0 ** -27, my - ny_ * 2.0 ** -27)
     for (x, y) in truth.get('hole_points', []):
         add(x, y)
     xs = [c[0] for p in valid for c in p.exterior.coords]
